@@ -461,6 +461,27 @@ try:
     bad.append('Number(2.5) redeclared with bounds=(0, 1): class created with default %r outside its bounds' % (D2.param.x.default,))
 except RuntimeError:
     pass
+# every class is checked when it is created, whatever else it declares (abstract classes, classes with
+# further attributes, classes created through type() or add_parameter)
+for abstract in (False, True):
+    for route in ('statement', 'add_parameter'):
+        for redecl, what in ((lambda: param.Number(bounds=(0, 1)), 'bounds=(0, 1) excluding the inherited default 2.5'),
+                             (lambda: param.Integer(), 'Integer() over the inherited default 2.5')):
+            ns = {'_Q__abstract': True} if abstract else {}
+            try:
+                if route == 'statement':
+                    ns['x'] = redecl()
+                    Q = type('Q', (A,), ns)
+                else:
+                    Q = type('Q', (A,), ns)
+                    Q.param.add_parameter('x', redecl())
+            except (RuntimeError, ValueError, TypeError):
+                continue
+            bad.append('%sclass redeclaring x with %s by %s was created with default %r'
+                       % ('abstract ' if abstract else '', what, route, Q.param.x.default))
+            sub = type('QS', (Q,), {})
+            if sub.param.x.default == 2.5:
+                bad.append('... and its concrete subclass silently inherits default 2.5 with %s' % what)
 class V(param.Number):
     def _validate(self, val):
         if val == 2.5:
